@@ -8,6 +8,7 @@ import (
 	cmtproto "github.com/cometbft/cometbft/proto/tendermint/types"
 	banktypes "github.com/cosmos/cosmos-sdk/x/bank/types"
 
+	pmtypes "github.com/osmosis-labs/osmosis/v31/x/poolmanager/types"
 	protorevtypes "github.com/osmosis-labs/osmosis/v31/x/protorev/types"
 	valsettypes "github.com/osmosis-labs/osmosis/v31/x/valset-pref/types"
 
@@ -30,6 +31,9 @@ var grafts = []graft{
 	{"C19-protorev-state-not-exported", protorevtypes.StoreKey, protorevtypes.KeyPrefixTradesByRoute},
 	{"C19-protorev-state-not-exported", protorevtypes.StoreKey, protorevtypes.KeyPrefixProfitsByRoute},
 	{"C19-bank-supply-offset-not-exported", banktypes.StoreKey, banktypes.SupplyOffsetKey},
+	{"C19-poolmanager-taker-fee-share-not-exported", pmtypes.StoreKey, pmtypes.KeyTakerFeeShare},
+	{"C19-poolmanager-taker-fee-share-not-exported", pmtypes.StoreKey, pmtypes.KeyRegisteredAlloyPool},
+	{"C19-poolmanager-taker-fee-share-not-exported", pmtypes.StoreKey, pmtypes.TakerFeeSkimAccrualPrefix},
 }
 
 func prefixEnd(p []byte) []byte {
@@ -104,5 +108,15 @@ func (n *Node) Reports() []string {
 	out = append(out, fmt.Sprintf("protorev number-of-trades = %s (err=%v)", nt, err != nil))
 	routes, _ := n.App.ProtoRevKeeper.GetAllRoutes(ctx)
 	out = append(out, fmt.Sprintf("protorev routes-with-statistics = %v", routes))
+	ag, err := n.App.PoolManagerKeeper.GetAllTakerFeesShareAgreements(ctx)
+	out = append(out, fmt.Sprintf("poolmanager taker-fee share agreements = %v (err=%v)", ag, err != nil))
+	al, err := n.App.PoolManagerKeeper.GetAllRegisteredAlloyedPools(ctx)
+	var als []string
+	for _, x := range al {
+		als = append(als, fmt.Sprintf("%s@%s", x.ContractAddress, x.TakerFeeShareAgreements))
+	}
+	out = append(out, fmt.Sprintf("poolmanager registered alloyed pools = %v (err=%v)", als, err != nil))
+	acc, err := n.App.PoolManagerKeeper.GetAllTakerFeeShareAccumulators(ctx)
+	out = append(out, fmt.Sprintf("poolmanager taker-fee share accumulators = %v (err=%v)", acc, err != nil))
 	return out
 }
